@@ -196,8 +196,9 @@ Proof.
     destruct name as [|c r]; [apply Good_refl; auto|]. cbv iota beta in *.
     set (name := c :: r) in *.
     destruct (str_eqb (to_upper name) INBOX); [apply Good_refl; auto|].
+    destruct (is_role_ns name); [apply Good_refl; auto|].
     destruct (find_name s name); [apply Good_refl; auto|].
-    apply negb_true_iff in F. rewrite F in *.
+    apply negb_true_iff in F. unfold create_parents. rewrite F. change (fst (s, true)) with s.
     destruct (create_mailbox_row s name t) as [[s2 id]|] eqn:Cr; [|apply Good_refl; auto].
     simpl in *. destruct (create_row_good s name t s2 id I Cr) as (G & _). exact G.
   - (* delete *)
@@ -215,6 +216,7 @@ Proof.
     destruct a as [|ca ra]; [apply Good_refl; auto|].
     destruct b as [|cb rb]; [apply Good_refl; auto|]. cbv iota beta in *.
     set (a := ca :: ra) in *. set (b := cb :: rb) in *.
+    destruct (is_role_ns b); [apply Good_refl; auto|].
     destruct (str_eqb (to_upper b) INBOX); [apply Good_refl; auto|].
     unfold is_inbox in Fu.
     destruct (str_eqb (to_upper a) INBOX).
@@ -222,6 +224,7 @@ Proof.
       unfold rename_inbox in *.
       destruct (find_name s b) eqn:Fb; [apply Good_refl; auto|].
       destruct (find_name s INBOX) as [ib|] eqn:Fi; [|apply Good_refl; auto].
+      unfold create_parents. rewrite Fs. cbv iota beta. change (negb true) with false. cbv iota.
       destruct (create_mailbox_row s b t) as [[s1 nid]|] eqn:Cr; [|apply Good_refl; auto].
       destruct (create_row_shape s b t s1 nid Cr) as (_ & Enid & Es1).
       apply find_name_some in Fi. destruct Fi as [Hib _].
@@ -239,17 +242,12 @@ Proof.
     + (* plain RENAME *)
       destruct (find_name s a) as [m|] eqn:Fa; [|apply Good_refl; auto].
       destruct (find_name s b) eqn:Fb; [apply Good_refl; auto|].
-      rewrite Fs in *. simpl in *.
+      unfold create_parents. rewrite Fs. cbv iota beta. change (negb true) with false. cbv iota.
       apply find_name_some in Fa. destruct Fa as [Hm Ena].
       pose proof (find_id_in s m I Hm) as Hf.
       apply negb_true_iff in Fu.
       destruct (rename_row_good s (mb_id m) b m I Hf Fb (used_b_false _ _ _ Fu)) as (s' & R & G & Em & El).
       unfold rename_tx. rewrite R.
-      assert (Hc : children s' a = []).
-      { unfold children. rewrite Em. apply (proj2 (filter_nil _ _)).
-        intros m' Hm'. apply in_map_iff in Hm'. destruct Hm' as (m0 & <- & H0). unfold ren.
-        destruct (mb_id m0 =? mb_id m); simpl; [exact Fl|].
-        destruct (children s a) eqn:Ch; [|discriminate].
-        unfold children in Ch. exact (proj1 (filter_nil _ _) Ch m0 H0). }
-      rewrite Hc. simpl. exact G.
+      destruct (children s a) eqn:Ch; [|discriminate].
+      simpl. exact G.
 Qed.
